@@ -31,6 +31,22 @@ function main() -> void { echo(Counter.bump()); echo(Counter.bump()); final int 
 ]
 
 
+def format_prog(rng):
+    """echo sequences over whole / fractional floats, float arrays and concatenations: anything that formats numbers
+    through shared stream state shows up when the sequence is replayed in the same process"""
+    body = [("declarr", "float", "fa", None, ("arr", [("f", rng.choice([1, 3, 5]), rng.choice([1, 2, 3])) for _ in range(rng.randint(1, 3))])),
+            ("declarr", "float", "fz", ("i", rng.randint(1, 3)), None),
+            ("decl", False, "float", "w", ("f", rng.choice([0, 2, 7, 100]), 0)),
+            ("decl", False, "float", "x", ("f", rng.choice([1, 3, 9]), rng.choice([1, 2, 3])))]
+    menu = [("echo", ("v", "fa")), ("echo", ("v", "fz")), ("echo", ("v", "w")), ("echo", ("v", "x")),
+            ("echo", ("bin", "+", ("s", "v="), ("v", "w"))), ("echo", ("bin", "+", ("s", "v="), ("v", "x"))),
+            ("echo", ("bin", "+", ("s", "a="), ("v", "fa"))), ("echo", ("bin", "/", ("i", 1), ("i", rng.choice([2, 3, 4])))),
+            ("echo", ("bin", "*", ("v", "w"), ("v", "x"))), ("echo", ("i", rng.randint(0, 9)))]
+    for _ in range(rng.randint(3, 8)):
+        body.append(rng.choice(menu))
+    return [("main", "void", [], body)], None
+
+
 def split_shots(stdout, n):
     parts = (stdout or "").split(SEP)
     if parts and parts[-1] == "":
@@ -51,6 +67,8 @@ def run(chk):
             progs.append(og.ObjGen(rng).program())
         elif k == 1:
             progs.append(gcgen.gen(rng))
+        elif k == 2:
+            progs.append(format_prog(rng))
         else:
             progs.append((lg.Gen(rng, nfuncs=rng.randint(0, 3)).program(), None))
     srcs = [lg.prog_src(*p) for p in progs] + GENERIC_CORPUS
@@ -67,6 +85,11 @@ def run(chk):
         if i < len(models):
             v, d = lc.classify(models[i], f)
             counts[v] = counts.get(v, 0) + 1
+            if v not in ("agree", "rejected") and not v.startswith("skip"):
+                chk.report("c18-fresh-%s" % v, {"source": src, "model_input": sxs[i], "reference": models[i],
+                                               "implementation": {k: f.get(k) for k in ("status", "cat", "msg", "stdout")}},
+                           "a fresh run already disagrees with the reference interpreter: %s" % d[:140])
+                continue
         if f.get("status") != "ok":
             # a failing program fails in the first shot the same way
             same = (m.get("status"), m.get("cat"), lc.impl_err_kind(m.get("msg"))) == (f.get("status"), f.get("cat"), lc.impl_err_kind(f.get("msg")))
